@@ -48,7 +48,27 @@ claim("C17", "DESIGN.md §2 C17",
       "go-statement inventory + CFG path rules (must-follow, gate dominance), release-on-failure typestate over acquisitions",
       COMMON_NOTE)
 
+claim("C04", "DESIGN.md §2 C04",
+      "Structural necessary conditions of 'GC never changes contents': index GC sets the deleted bit only on the busy()==false edge (busy reads the bucket under bucketLk and reports in-use iff file number AND position match) or when merging already-deleted records; primary records are marked only via the freelist, when not deleted and the size matches; slices handed to the primary's retaining Put during relocation do not alias a reused buffer; no *os.File result is used after its open failed; the primary is flushed and the freelist pool handed over before a cycle applies the freelist; reap/remove/truncate only touch file numbers dominated by a != current test against a snapshot read under flushLock (taken before the bucket scan); relocation frees exactly the moved record's (offset,size) pair after the re-point; FirstFile advances only past a file shown empty and only the header's first file is unlinked after the header write; merged free spans grow by exactly the scanner's advance; the rescan applies every non-deleted record; all scanners honour the deleted bit. Truncation offsets, resume cursor and schedules are not covered.",
+      "dominance/evidence-edge path rules, alias/retention provenance, affine merge-framing comparison, paired-variable consistency over phis, call-site inventories",
+      COMMON_NOTE)
+
+claim("C05", "DESIGN.md §2 C05",
+      "Structural necessary conditions of 'keys do not interfere / lookups after a Put see it' (NOT linearizability over all schedules): in Index.Put/Update/Remove the read of the bucket's record list and the store of the new list happen in one exclusive bucketLk section and the stored list derives from that read; in each Flush the pool swap is one exclusive section, curPool is written only by Flush and not overwritten before the bucket table is updated after a successful write; cache lookups report a miss only after both pools; every present-outcome is behind the full-key comparison; no unprotected conflicting access pair among the foreground/flusher roots; lock order acyclic.",
+      "lock-span checks from the lockset dataflow, path rules, lockset race analysis restricted to FG/FL roots",
+      COMMON_NOTE)
+
+claim("C06", "DESIGN.md §2 C06",
+      "Structural necessary conditions of 'concurrent GC never disturbs callers': no unprotected conflicting access pair between public calls, flusher and both collectors (lockset analysis incl. GC roots); lock order acyclic; index GC marks only on the busy()==false edge; GC only touches files dominated by a != current test against a snapshot taken under flushLock and before the bucket scan; hand-over in one exclusive flushLock section; relocation hands stable buffers to the primary; relocation may re-point a key only if the index still names the moved record — violated on the current tree and reported as KNOWN-FINDING KF-2 (known_findings.json). The reader-holds-position window and all timing are not covered.",
+      "lockset/race analysis over go/ssa + VTA call graph, path rules, call-graph-resolved function-field callee check (compare-and-swap shape)",
+      COMMON_NOTE)
+
+claim("C07", "DESIGN.md §2 C07",
+      "Structural necessary conditions of the fsck invariant (NOT the invariant over reachable disk states; an fsck needs the files): no location is freed unless the index stopped naming it on that path; FirstFile advances only past a file shown empty, only the header's first file is unlinked and only after the header write; scanners/readers honour the deleted bit; merged free spans keep the log framed (grow by the scanner's advance); the rescan applies every non-deleted record; writer, rescan and GC agree on the bucket position convention; writer and reader tables of the index entry, index log record, freelist entry and primary record agree (affine comparison). Sortedness/prefix-freeness, key-carrying and division-based position arithmetic are not covered.",
+      "affine writer/reader table comparison, dominance path rules, call-site inventory",
+      COMMON_NOTE)
+
 PENDING = "check for this property is still being built in this session; see DESIGN.md for the planned structural rules"
-for p in ["C04","C05","C06","C07","C08","C09","C10"]:
+for p in ["C08","C09","C10"]:
     na(p, PENDING)
 na("C11", "progress, reclaimed byte counts, 'bounded number of cycles' and fixed points are quantities of executions; no refactoring-stable structural necessary condition exists beyond safety rules already claimed under C04/C07 (DESIGN.md §2 C11)")
